@@ -4,6 +4,7 @@ import (
 	"fmt"
 	"go/token"
 	"go/types"
+	"strings"
 
 	"cffverif/internal/ssax"
 
@@ -192,6 +193,20 @@ func (m *model) discoverLoop() error {
 			lists = append(lists, c)
 		}
 	})
+	if len(lists) > 1 {
+		// the ready list is the one created once, before the loop; S5 reports the others
+		var once []ssa.Value
+		for _, l := range lists {
+			if b := l.(*ssa.Call).Block(); !reachFrom(b, b) && b.Dominates(m.header) {
+				once = append(once, l)
+			} else {
+				m.extraLists = append(m.extraLists, l.(*ssa.Call))
+			}
+		}
+		if len(once) == 1 {
+			lists = once
+		}
+	}
 	if len(lists) != 1 {
 		return fmt.Errorf("scheduler loop: expected exactly one list.New() (ready list), found %d", len(lists))
 	}
@@ -358,6 +373,14 @@ func (m *model) headerPhi(v ssa.Value) *ssa.Phi {
 func (m *model) resolve(v ssa.Value) ssa.Value {
 	for i := 0; i < 8; i++ {
 		v = ssax.Unspill(v)
+		if u, ok := v.(*ssa.UnOp); ok && u.Op == token.MUL {
+			if _, isFA := u.X.(*ssa.FieldAddr); isFA {
+				if sv := m.storedOnce(u.X); sv != nil {
+					v = sv
+					continue
+				}
+			}
+		}
 		if c, ok := v.(*ssa.Call); ok {
 			if r := m.helperResult(c); r != nil {
 				v = r
@@ -385,6 +408,49 @@ func (m *model) resolve(v ssa.Value) ssa.Value {
 		}
 	}
 	return v
+}
+
+// storedOnce: addr is a field of a local struct of the loop function that is written exactly once in the loop
+// goroutine, straight-line before any cycle (e.g. the ready list kept in a bookkeeping struct), and whose
+// address goes nowhere else: the value stored.
+func (m *model) storedOnce(addr ssa.Value) ssa.Value {
+	if m.fnLoop == nil {
+		return nil
+	}
+	if m.onceMemo == nil {
+		m.onceMemo = map[string]ssa.Value{}
+		count := map[string]int{}
+		val := map[string]ssa.Value{}
+		for _, fn := range m.loopFuncs() {
+			ssax.Instrs(fn, func(in ssa.Instruction) {
+				st, ok := in.(*ssa.Store)
+				if !ok {
+					return
+				}
+				if _, ok := st.Addr.(*ssa.FieldAddr); !ok {
+					return
+				}
+				k := m.key(st.Addr)
+				if !strings.Contains(k, "alloc:") || !strings.Contains(k, "@"+m.fnLoop.String()) {
+					return
+				}
+				count[k]++
+				val[k] = st.Val
+				if st.Parent() != m.fnLoop || reachFrom(st.Block(), st.Block()) {
+					count[k]++ // not a one-time initialisation
+				}
+				if a := m.rootAlloc(st.Addr); a == nil || !m.contained(a) {
+					count[k]++
+				}
+			})
+		}
+		for k, n := range count {
+			if n == 1 {
+				m.onceMemo[k] = val[k]
+			}
+		}
+	}
+	return m.onceMemo[m.key(addr)]
 }
 
 func (m *model) discoverCounters() error {
@@ -418,13 +484,30 @@ func (m *model) discoverCounters() error {
 		if err != nil {
 			continue
 		}
-		p, w := m.headerPhi(vals["Pending"]), m.headerPhi(vals["Waiting"])
-		var o *ssa.Phi
+		mk := func(v ssa.Value, name string) *counter {
+			if v == nil {
+				return nil
+			}
+			if p := m.headerPhi(v); p != nil && isInt(p.Type()) {
+				return &counter{phi: p, name: name}
+			}
+			if k, u := m.cellKey(m.resolve(v)); k != "" && isInt(u.Type()) {
+				return &counter{cell: k, name: name}
+			}
+			return nil
+		}
+		p, w := mk(vals["Pending"], "pending"), mk(vals["Waiting"], "waiting")
+		var o *counter
 		if idle := vals["IdleWorkers"]; idle != nil {
-			o = m.findHeaderPhiIn(idle, 0)
+			if ph := m.findHeaderPhiIn(idle, 0); ph != nil {
+				o = &counter{phi: ph, name: "ongoing"}
+			} else if k := m.findCellIn(idle, 0); k != "" {
+				o = &counter{cell: k, name: "ongoing"}
+			}
 		}
 		if p != nil && w != nil && o != nil {
 			m.cPending, m.cWaiting, m.cOngoing = p, w, o
+			m.counters = []*counter{p, o, w}
 			m.stateVal = cand
 			return nil
 		}
@@ -446,22 +529,59 @@ func (m *model) discoverCounters() error {
 		for _, p := range ints {
 			vs := m.versions(p)
 			if ok, _ := eqInt(a, 0, func(v ssa.Value) bool { return vs[v] }); ok && m.cPending == nil {
-				m.cPending = p
+				m.cPending = &counter{phi: p, name: "pending"}
 			}
 			if (a.op == "<" || a.op == "<=") && (vs[a.av] && m.isField(a.bv, m.fConc) || vs[a.bv] && m.isField(a.av, m.fConc)) {
-				m.cOngoing = p
+				m.cOngoing = &counter{phi: p, name: "ongoing"}
 			}
 		}
 	}
 	for _, p := range ints {
-		if p != m.cPending && p != m.cOngoing && len(ints) == 3 {
-			m.cWaiting = p
+		if (m.cPending == nil || p != m.cPending.phi) && (m.cOngoing == nil || p != m.cOngoing.phi) && len(ints) == 3 {
+			m.cWaiting = &counter{phi: p, name: "waiting"}
 		}
 	}
-	if m.cPending == nil || m.cWaiting == nil || m.cOngoing == nil || m.cPending == m.cOngoing {
+	if m.cPending != nil && m.cWaiting != nil && m.cOngoing != nil && m.cPending.phi != m.cOngoing.phi {
+		m.counters = []*counter{m.cPending, m.cOngoing, m.cWaiting}
+		return nil
+	}
+	if true {
 		return fmt.Errorf("scheduler loop: the loop-carried counters (pending, waiting, executing) could not be identified from the state report or from the loop's tests")
 	}
 	return nil
+}
+
+// findCellIn: the counter cell that v is computed from (through -, helper calls, conversions).
+func (m *model) findCellIn(v ssa.Value, depth int) string {
+	if depth > 6 || v == nil {
+		return ""
+	}
+	v = m.resolve(v)
+	if k, u := m.cellKey(v); k != "" && isInt(u.Type()) {
+		return k
+	}
+	switch x := v.(type) {
+	case *ssa.BinOp:
+		if k := m.findCellIn(x.Y, depth+1); k != "" {
+			return k
+		}
+		return m.findCellIn(x.X, depth+1)
+	case *ssa.Call:
+		for _, a := range x.Call.Args {
+			if k := m.findCellIn(a, depth+1); k != "" {
+				return k
+			}
+		}
+	case *ssa.Phi:
+		for _, e := range x.Edges {
+			if k := m.findCellIn(e, depth+1); k != "" {
+				return k
+			}
+		}
+	case *ssa.Convert:
+		return m.findCellIn(x.X, depth+1)
+	}
+	return ""
 }
 
 // findHeaderPhiIn: the int header phi that v is computed from (through -, helper calls, conversions).
